@@ -137,8 +137,10 @@ class ThermochemRawData(ThermochemBase):
         # data points are, otherwise its error estimate is unreliable.
         (lo, hi, sign) = (T_a, T_b, 1.0) if T_a <= T_b else (T_b, T_a, -1.0)
         knots = [t for t in self.Ts if lo < t < hi]
+        # (the integrator wants more subintervals than break points)
         return ND_S + sign*integrate(lambda t: self.spline(t)/t, lo, hi,
-                                     points=(knots or None))[0]
+                                     points=(knots or None),
+                                     limit=max(50, 2*len(knots) + 2))[0]
 
     def get_HoRT(self, T):
         """Return non-dimensional standard heat of formation |eq_ND_H_T|."""
